@@ -302,3 +302,59 @@ PROPS["C19"] = dict(
     assumptions=["walker pattern distances are positive (a non-positive distance makes PathWalker::edge loop forever - "
                  "documented precondition)", "distances are clamped to [0, length] before the cursor moves (as sample_impl does)"],
 )
+
+PROPS["C09"] = dict(
+    level="translation_validation",
+    level_text="Two parts. (1) PROVED (Props/C09.v) for ANY numeric oracle (step count, parameter function, number of "
+               "sub-quadratics) and any arithmetic: the control structure of the quadratic callback, the quadratic point / "
+               "parameter iterators, the cubic callback and the cubic point iterator yields a chain that starts exactly at "
+               "the curve's start with parameter 0, is connected piece to piece, has contiguous parameter ranges and ends "
+               "exactly at the curve's end with parameter exactly 1; iterators emit exactly the callback's end points. The "
+               "control-structure model is tied to the code bit-exactly: the parameter ranges handed to the callbacks are "
+               "recomputed in Coq from the recorded oracles (f32 and f64). (2) VALIDATED per run: every interface (callback, "
+               "with parameters, iterators, path iterator adapter, builder adapter, arcs) on every generated curve is "
+               "checked for connectivity, exact end points, strictly increasing parameters and for the two-sided distance "
+               "bound by dense sampling; deviations beyond the tolerance are reported unless they fall in the documented "
+               "known-finding classes K2, K6, K10.",
+    level_note="The distance bound (within tolerance e) is NOT a theorem: Levien's step count is an approximation without a "
+               "proved bound, and the code violates the bound on degenerate curves (known findings). Dense sampling (512 "
+               "samples) is the oracle for the deviation.",
+    technique="Coq proof of the flattening control structure for all oracles + bit-exact correspondence; sampled deviation validation",
+    coq_targets=["theories/Props/C09.vo", "theories/Run/C09.vo"],
+    props_file="theories/Props/C09.v",
+    props_module="Props.C09",
+    harness=[dict(sub="c09", profile="debug"), dict(sub="c09", profile="release")],
+    rule="per scalar type (f32, f64): quadratics and cubics with lattice or random control points, tolerances "
+         "{10, 1, 0.25, 0.1, 0.01, 0.001}, deliberate degeneracies (start == end, coincident / collinear / overshooting "
+         "control points, hairpins, loops, all points equal); elliptic arcs (radii 0.5..20, sweeps up to +-7 rad, "
+         "rotations); path-level adapters on random programs; non-trivial = control points not all equal",
+    trusted_base=["Model/Flatten.v follows the loops of for_each_flattened_with_t / Flattened / FlattenedT; Base/F32.v (f32 and f64 rounding)"],
+    assumptions=["oracle values (step counts, parameters) are whatever the real code computed: their adequacy for the "
+                 "tolerance is validated, not proved"],
+)
+
+PROPS["C16"] = dict(
+    level="proof",
+    level_text="Theorems (Props/C16.v): (a) for ANY builder program, attribute count and ANY function f on points, building "
+               "through the transforming builder, mapping the events of the stored path and storing the transformed "
+               "program give the same events (positions and attributes) - no linearity needed; (b) for ANY program and ANY "
+               "flattening oracle satisfying C09's structural guarantee, builder::Flattened emits only begin/line/end "
+               "calls, keeps every original endpoint exactly (position and attributes) and in order, gives every inserted "
+               "point attributes lerp(curve start attributes, curve end attributes, t) - including right after begin (the "
+               "defect repaired in the pinned tree) - and emits the same positions as the iterator adapter. The model of "
+               "builder::Flattened is compared call-by-call (f32-exact attributes) with the real adapter around a "
+               "recording builder; transform identities, for_each_flattened and both nesting orders are checked directly.",
+    level_note="Trusted: Coq kernel; Base/F32.v; flattening points are an oracle (their distance to the curve is C09's "
+               "subject); nesting orders are not claimed equal (flattening is not affine covariant), each is checked to "
+               "be lines-only and endpoint-preserving.",
+    technique="Coq proof (list induction over builder programs) + call-by-call differential correspondence",
+    coq_targets=["theories/Props/C16.vo", "theories/Run/C16.vo"],
+    props_file="theories/Props/C16.v",
+    props_module="Props.C16",
+    harness=[dict(sub="c16", profile="debug")],
+    rule="random programs (1..3 sub-paths, lines / quadratics / cubics, 0..3 attributes with values 100 apart so that stale "
+         "data is visible, every third program starts sub-paths with a curve) x tolerances {1, 0.25, 0.05} x random integer "
+         "affine maps; non-trivial = program contains a curve",
+    trusted_base=["Model/Flatten.v (fb_run / fi_run) follows builder::Flattened, private::flatten_*_bezier, iterator::Flattened"],
+    assumptions=["finite coordinates and attributes"],
+)
